@@ -49,6 +49,7 @@ class SimDevice(object):
         self.commands_seen = 0          # commands that reached a tag
         self.fate = None                # callable(index, data) -> fate
         self.tamper = None              # callable(index, cmd, rsp) -> rsp
+        self.late_responses = 0
         self.log = []                   # (index, fate, cmd, rsp)
         self.keep_log = True
         self.max_send, self.max_recv = max_send, max_recv
@@ -157,6 +158,15 @@ class SimDevice(object):
                 self.commands_seen += 1
                 before = tag.state_changes
                 rsp = tag.command(data)
+                # a card that needs time to answer: the reader must wait as long as the card announced it may take
+                rt = getattr(tag, "response_time", None)
+                if rt is not None and rsp is not None:
+                    t_rsp = rt(data)
+                    if t_rsp > timeout:
+                        self.late_responses += 1
+                        rsp = None          # the answer comes after the reader has given up (the command was executed)
+                    else:
+                        self.clock.advance(t_rsp)
                 if tag.state_changes != before:
                     self.state_changes += 1
                     if self.remove_after_state_change is not None and \
